@@ -367,8 +367,7 @@ func (s *Sorter) SortedBlocks(ctx context.Context, removedCols map[int]struct{},
 				select {
 				case <-ctx.Done():
 					return
-				default:
-					blocks <- b
+				case blocks <- b:
 				}
 				offset++
 				blk = blk[:0]
@@ -386,8 +385,7 @@ func (s *Sorter) SortedBlocks(ctx context.Context, removedCols map[int]struct{},
 			select {
 			case <-ctx.Done():
 				return
-			default:
-				blocks <- b
+			case blocks <- b:
 			}
 		}
 	}()
@@ -474,11 +472,10 @@ func (s *Sorter) SortedRows(ctx context.Context, removedCols map[int]struct{}, e
 				select {
 				case <-ctx.Done():
 					return
-				default:
-					rowsCh <- &Rows{
-						Offset: offset,
-						Rows:   rows,
-					}
+				case rowsCh <- &Rows{
+					Offset: offset,
+					Rows:   rows,
+				}:
 				}
 				offset++
 				rows = make([][]string, 0, 255)
@@ -488,11 +485,10 @@ func (s *Sorter) SortedRows(ctx context.Context, removedCols map[int]struct{}, e
 			select {
 			case <-ctx.Done():
 				return
-			default:
-				rowsCh <- &Rows{
-					Offset: offset,
-					Rows:   rows,
-				}
+			case rowsCh <- &Rows{
+				Offset: offset,
+				Rows:   rows,
+			}:
 			}
 		}
 	}()
